@@ -31,8 +31,8 @@ func (e Edge) From() graph.Node { return e.F }
 func (e Edge) To() graph.Node { return e.T }
 
 // ReversedEdge returns a new Edge with the F and T fields
-// swapped.
-func (e Edge) ReversedEdge() graph.Edge { return Edge{F: e.T, T: e.F} }
+// swapped. The Lines within the Edge are not altered.
+func (e Edge) ReversedEdge() graph.Edge { e.F, e.T = e.T, e.F; return e }
 
 // Line is a multigraph edge.
 type Line struct {
